@@ -1,8 +1,31 @@
 import Drv.Base
-open Lean Pdt
+import Drv.Blocks
+import PdtModel.Model.Errors
+open Lean Pdt Pdt.Reader Pdt.Blocks Pdt.Errors
 namespace Drv
 
-/-- op handler of the `Errors` layer (stub until the layer is built) -/
-def handleErrors (_op : String) (_j : Json) : Option (Except String Json) := none
+/-- ops of the `Errors` layer (C12, C13):
+    "parse_blocks_fx"  = "parse_blocks" + the fixer state the stream leaves behind
+    "read_csv_blocks"  = text -> rows (`readCsvRows`) -> `parseBlocks`, answering the rows too -/
+def handleErrors (op : String) (j : Json) : Option (Except String Json) :=
+  match op with
+  | "parse_blocks_fx" => some do
+    let rows ← rowsOfJson (← j.getObjVal? "rows")
+    let cfg ← configOfJson j
+    let f ← fixerOfJson (← j.getObjVal? "fixer")
+    let r := parseBlocks cfg rows f
+    pure ((resultToJson r).setObjVal! "fixer" (fixerToJson r.fixer))
+  | "read_csv_blocks" => some do
+    let text ← getStr j "text"
+    let sep ← getStr j "sep"
+    let cfg ← configOfJson j
+    let f ← fixerOfJson (← j.getObjVal? "fixer")
+    match sep with
+    | [c] =>
+      let rows := readCsvRows c text
+      let r := parseBlocks cfg rows f
+      pure (((resultToJson r).setObjVal! "fixer" (fixerToJson r.fixer)).setObjVal! "rows" (arr (rows.map rowToJson)))
+    | _ => throw "sep must be one character"
+  | _ => none
 
 end Drv
